@@ -9,6 +9,7 @@ import (
 	"runtime/debug"
 	"sort"
 	"strings"
+	"verif/simrt"
 
 	"verif/sim"
 )
@@ -73,6 +74,11 @@ func NewCase(p Property, verifSeed, i uint64, tier string) *sim.Case {
 	c := &sim.Case{Prop: p.ID(), Seed: verifSeed, Run: i, Lane: "A", Cfg: map[string]int{}}
 	r := sim.NewRand(sim.RunSeed(verifSeed, p.ID(), i))
 	p.Gen(r, c, tier)
+	// the clock the library reads during this run (clock seam of the instrumented copy): steady, jumping or stuck
+	if c.Cfg == nil {
+		c.Cfg = map[string]int{}
+	}
+	c.Cfg["clock"] = []int{simrt.ClockSteady, simrt.ClockSteady, simrt.ClockSteady, simrt.ClockSteady, simrt.ClockSteady, simrt.ClockSteady, simrt.ClockSteady, simrt.ClockJumps, simrt.ClockJumps, simrt.ClockStuck}[r.Intn(10)]
 	return c
 }
 
@@ -88,7 +94,16 @@ func Execute(p Property, c *sim.Case, env *Env) (res *sim.RunResult, infra error
 			infra = fmt.Errorf("harness panic: %v\n%s", r, debug.Stack())
 		}
 	}()
+	// one simulated clock per run (policy from the case; cases without the key - witnesses, old replay files - get the steady clock)
+	simrt.InstallClock(c.Seed^(c.Run*0x9E3779B97F4A7C15)^0xC10C, c.C("clock"))
 	v := p.Exec(c, &e)
+	st.ProbeN("clock_reads", simrt.ClockReads())
+	if c.C("clock") == simrt.ClockJumps && simrt.ClockReads() > 0 {
+		st.Fault("clock-jump")
+	}
+	if c.C("clock") == simrt.ClockStuck && simrt.ClockReads() > 0 {
+		st.Fault("clock-stuck")
+	}
 	for i := range v {
 		v[i].Prop = p.ID()
 	}
